@@ -670,3 +670,34 @@ def run(idx, rep, tier):
     rep.rule('C18.R8', 'CanonicalizeMaxDots bound and CanonicalizePermitted'
              'CNAMEs test of _canonicalize_host (evaluated / guarded)')
     canonicalize_rules(k, 'C18.R8')
+    rep.rule('C18.R9', 'SSHClientConfig._set_tokens: the %L token is the '
+             'local host name up to its first dot, the whole name when it '
+             'has none (evaluated for dotted and dotless names)')
+    _fi = k.func('config.SSHClientConfig._set_tokens')
+    _body = _fi.node.body
+    _i0 = next((i for i, st in enumerate(_body) if isinstance(st, ast.Assign)
+                and any(dotted(t) == 'local_host' for t in st.targets)), None)
+    _i1 = next((i for i, st in enumerate(_body) if isinstance(st, ast.Assign)
+                and any(dotted(t) == 'short_local_host'
+                        for t in st.targets)), None)
+    if _i0 is None or _i1 is None or _i1 < _i0:
+        rep.error('C18.R9', key(_fi, 'short host name fragment'), 'not found')
+    else:
+        _bad = None
+        for _h, _want in (('buildbox', 'buildbox'), ('a.b.example', 'a'),
+                          ('x', 'x'), ('host.local', 'host')):
+            try:
+                _o = evaluate(idx, _fi.module, _body[_i0:_i1 + 1], {}, {},
+                              lambda nm, a, e, _h=_h: _h
+                              if nm == 'socket.gethostname' else Obj('x'))
+            except NotEvaluable as exc:
+                rep.error('C18.R9', key(_fi, 'not-evaluable'), str(exc))
+                break
+            _got = _o.env.get('short_local_host')
+            if _got != _want and _bad is None:
+                _bad = f'local host {_h!r}: %L = {_got!r}, expected {_want!r}'
+        rep.check(_bad is None, 'C18.R9', key(_fi, '%L short host name'),
+                  '4 host names', f'{_bad}: every option that takes tokens '
+                  '(IdentityFile, ProxyCommand, ...) resolves differently '
+                  'from ssh on a machine whose host name has no dot',
+                  _fi.loc(_body[_i1]))
